@@ -173,7 +173,9 @@ theorem build_err (f : Framer) (fl op : UInt8) (s : Int) (body : Bytes) (e : Err
     (h : f.build fl op s body = .error e) :
     (e = .tooBig ∧ maxFrameSize < f.headSize + body.length) ∨
     (e = .panic ∧ fl &&& flagCompress = flagCompress ∧ f.comp = none) ∨
-    (e = .codec ∧ fl &&& flagCompress = flagCompress ∧ ∃ c u, f.comp = some c ∧ c.enc body = .error u) := by
+    (e = .codec ∧ fl &&& flagCompress = flagCompress ∧ ∃ c u, f.comp = some c ∧ c.enc body = .error u) ∨
+    (e = .tooBig ∧ fl &&& flagCompress = flagCompress ∧
+      ∃ c z, f.comp = some c ∧ c.enc body = .ok z ∧ maxFrameSize < f.headSize + z.length) := by
   unfold Framer.build Framer.finish at h
   rw [f.flag_of_buf] at h
   obtain ⟨_, hd⟩ := f.split_buf fl op s body
@@ -192,8 +194,13 @@ theorem build_err (f : Framer) (fl op : UInt8) (s : Int) (body : Bytes) (e : Err
       | some c =>
         simp only [hcomp] at h
         cases he : c.enc body with
-        | error u => simp only [he] at h; injection h with h; exact .inr (.inr ⟨h.symm, hc, c, u, rfl, he⟩)
-        | ok z => simp [he] at h
+        | error u => simp only [he] at h; injection h with h; exact .inr (.inr (.inl ⟨h.symm, hc, c, u, rfl, he⟩))
+        | ok z =>
+          simp only [he] at h
+          split at h
+          · rename_i hbig; injection h with h
+            exact .inr (.inr (.inr ⟨h.symm, hc, c, z, rfl, he, by omega⟩))
+          · cases h
     · have : (fl &&& flagCompress == flagCompress) = false := by simpa using hc
       simp [this] at h
 
@@ -202,38 +209,43 @@ theorem build_err (f : Framer) (fl op : UInt8) (s : Int) (body : Bytes) (e : Err
 def connFramer (comp : Option Codec) (version extra : UInt8) : Framer :=
   { newFramer comp version with flags := (newFramer comp version).flags ||| extra }
 
-/-- **Every body is delivered.** With a compressor that round-trips and whose Encode does not fail
-    (or with none), on a framer the connection makes, for every request kind, stream and every body
-    that fits a frame: the request IS built (no error, no panic) and a reader with the same
-    compressor gets back exactly the body. An Encode error for a valid body is therefore a violation
-    of the property, not an accepted outcome (ops `rt`, `hyp`, `lz4rt`). -/
+/-- **Every body is delivered, or the sender is told** (FULL statement, after the repair of KF-C18-2:
+    props/C18.fix-KF-C18-2.diff). With a compressor that round-trips and whose Encode does not fail (or
+    with none), on a framer the connection makes, for every request kind, stream and every body that
+    fits a frame: EITHER the request is built (no error, no panic) and a reader with the same compressor
+    gets back exactly the body, OR the compressor expanded the body over the limit and the sender gets
+    ErrFrameTooBig — nothing in between (no frame that declares more than the limit). -/
 theorem C18_delivered (comp : Option Codec) (version extra : UInt8) (hx : extra &&& 1 = 0)
     (hv : ValidProto (connFramer comp version extra))
     (hc : ∀ c, comp = some c → c.RoundTrips ∧ c.Total)
     (r : Req) (s : Int) (body : Bytes)
-    (hsz : 9 + body.length ≤ maxFrameSize)
-    (hz : ∀ c z, comp = some c → c.enc body = .ok z → z.length ≤ maxFrameSize) :
-    ∃ wire, (connFramer comp version extra).buildReq r s body = .ok wire ∧
+    (hsz : 9 + body.length ≤ maxFrameSize) :
+    (∃ wire, (connFramer comp version extra).buildReq r s body = .ok wire ∧
       (connFramer comp version extra).decode wire =
         .ok ((connFramer comp version extra).headOf (r.headerFlags (connFramer comp version extra)) r.opcode s
-              (wire.length - (connFramer comp version extra).headSize), body) := by
+              (wire.length - (connFramer comp version extra).headSize), body)) ∨
+    ((connFramer comp version extra).buildReq r s body = .error .tooBig ∧
+      ∃ c z, comp = some c ∧ c.enc body = .ok z ∧
+        maxFrameSize < (connFramer comp version extra).headSize + z.length) := by
   have hcomp : (connFramer comp version extra).comp = comp := rfl
   have hhs : (connFramer comp version extra).headSize ≤ 9 := by unfold Framer.headSize; split <;> omega
   cases hb : (connFramer comp version extra).buildReq r s body with
   | error e =>
-    exfalso
-    rcases build_err _ _ _ s body e hb with ⟨_, hbig⟩ | ⟨he, _, _⟩ | ⟨_, _, c, u, hcc, hu⟩
+    rcases build_err _ _ _ s body e hb with ⟨_, hbig⟩ | ⟨he, _, _⟩ | ⟨_, _, c, u, hcc, hu⟩ | ⟨he, _, c, z, hcc, hez, hbig⟩
     · omega
-    · subst he; exact C18_no_finish_panic comp version extra hx r s body hb
+    · subst he; exact absurd hb (C18_no_finish_panic comp version extra hx r s body)
     · rw [hcomp] at hcc
       obtain ⟨y, hy⟩ := (hc c hcc).2 body
       rw [hy] at hu; cases hu
+    · subst he
+      exact .inr ⟨rfl, c, z, hcomp ▸ hcc, hez, hbig⟩
   | ok wire =>
-    refine ⟨wire, rfl, ?_⟩
+    refine .inl ⟨wire, rfl, ?_⟩
     have hb' : (connFramer comp version extra).build (r.headerFlags (connFramer comp version extra)) r.opcode s body = .ok wire := hb
     apply C18_transparent _ hv (fun c h => (hc c (hcomp ▸ h)).1) _ _ s body wire hb'
-    rcases Framer.build_ok _ _ _ s body wire hb' with ⟨_, c, z, hcc, henc, hw⟩ | ⟨_, hw⟩
-    · subst hw; rw [frame_payload_length]; exact hz c z (hcomp ▸ hcc) henc
+    rcases Framer.build_ok _ _ _ s body wire hb' with ⟨hfl, c, z, hcc, henc, hw⟩ | ⟨_, hw⟩
+    · have hfit := Framer.build_ok_fits _ _ _ s body wire c z hb' hfl hcc henc
+      subst hw; rw [frame_payload_length]; omega
     · subst hw; rw [frame_payload_length]; omega
 
 example :
@@ -246,10 +258,22 @@ example :
 /-! ### lz4 wrapper -/
 
 theorem lz4Decode_be32 (b : BlockCodec) (n : Nat) (hn : n < 4294967296) (z : Bytes) :
-    lz4Decode b (be32 n ++ z) = if n = 0 then .ok [] else b.decB z n := by
+    lz4Decode b (be32 n ++ z) = if n = 0 then .ok [] else
+      (match b.decB z n with
+       | .error e => .error e
+       | .ok out => if out.length = n then .ok out else .error ()) := by
   have hr := readBE32_be32 n hn
-  simp [lz4Decode, lz4Prefix, be32, hr]
-  omega
+  have hp : lz4Prefix (be32 n ++ z) = n := by simp [lz4Prefix, be32, hr]
+  have hd : (be32 n ++ z).drop 4 = z := List.drop_left' (be32_length _)
+  have hl : ¬ (be32 n ++ z).length < 4 := by simp [be32_length]
+  unfold lz4Decode
+  rw [if_neg hl, hp, hd]
+  by_cases h0 : n = 0
+  · simp [h0]
+  · simp only [h0, if_false]
+    cases b.decB z n with
+    | error e => rfl
+    | ok out => by_cases hl' : out.length = n <;> simp [hl']
 
 /-- **The destination lz4.go allocates is large enough.** `make([]byte, CompressBlockBound(len+4))`
     minus the 4 prefix bytes is never below `CompressBlockBound(len)`: the block encoder is always
@@ -353,13 +377,29 @@ example :
     (lz4Decode b [0, 0, 0, 2, 0x55, 7, 8]).toOption = some [7, 8] ∧
     (lz4Decode b [0, 0, 0]).toOption = none := by decide
 
-/-- FULL STATEMENT the property suggests ("a corrupt compressed body yields an error") is not provable
-    for the lz4 wrapper as coded: lz4.go never compares the number of bytes the block decoder produced
-    with the declared length, so a body whose prefix over-declares is accepted and returned short.
-    Kernel-checked witness (block decoder = "copy"): prefix says 5, one byte comes back, no error. -/
-theorem C18_cex_lz4_length_unchecked :
+/-- **The declared length is checked** (after the repair of KF-C18-1, props/C18.fix-KF-C18-1.diff): for
+    every block codec and every input, whatever lz4 Decode returns has exactly the length its 4-byte
+    prefix declares — a body whose prefix over- or under-declares is an error, never a short result.
+    (Before the repair: `C18_cex_lz4_length_unchecked`, prefix 5, one byte back, no error.) -/
+theorem C18_lz4_length_checked (b : BlockCodec) (d x : Bytes) (h : lz4Decode b d = .ok x) :
+    x.length = lz4Prefix d := by
+  unfold lz4Decode at h
+  split at h
+  · cases h
+  split at h
+  · rename_i h0; injection h with h; subst h; simp [h0]
+  · cases hd : b.decB (d.drop 4) (lz4Prefix d) with
+    | error e => simp [hd] at h
+    | ok out =>
+      simp only [hd] at h
+      split at h
+      · rename_i hl; injection h with h; subst h; exact hl
+      · cases h
+
+/-- the former counterexample is an error now; a block that decodes to the declared length is accepted -/
+example :
     let b : BlockCodec := { encB := fun x _ => .ok x, decB := fun src n => .ok (src.take n) }
-    lz4Prefix [0, 0, 0, 5, 0x41] = 5 ∧ (lz4Decode b [0, 0, 0, 5, 0x41]).toOption = some [0x41] := by decide
+    (lz4Decode b [0, 0, 0, 5, 0x41]).toOption = none ∧ (lz4Decode b [0, 0, 0, 1, 0x41]).toOption = some [0x41] := by decide
 
 /-! ### lz4: the block format as a concrete block codec (Model/CompressLz4Block.lean) -/
 
@@ -408,8 +448,10 @@ theorem C18_lz4_decodes_any_stream (qs : List Lz4Sq) (last : Bytes) (hwf : lz4WF
   · have : x = [] := List.eq_nil_of_length_eq_zero h0
     simp [this]
   · rw [if_neg h0]
-    show lz4BlockDecode (lz4Ser qs last) x.length = .ok x
-    rw [lz4BlockDecode_stream qs last x.length hwf (by omega), hx]
+    have hd : lz4Ref.decB (lz4Ser qs last) x.length = .ok x := by
+      show lz4BlockDecode (lz4Ser qs last) x.length = .ok x
+      rw [lz4BlockDecode_stream qs last x.length hwf (by omega), hx]
+    simp [hd]
 
 /-- non-vacuity: literals "AB", an overlapping match (offset 1, length 6), last literals "C" -/
 example :
@@ -446,16 +488,17 @@ theorem C18_cex_lz4_zero_offset :
               0x4e, 0x4e, 0x4e, 0x4e, 0x4e, 0x4e, 0x4e, 0x4e,
               0x50, 0x51, 0x52, 0x53, 0x54, 0x55, 0x56, 0x57, 0x58, 0x59, 0x5a, 0x5b] := by decide
 
-/-- what the 4-byte prefix is NOT: the format's decoder may legitimately produce fewer bytes than the
-    destination holds — lz4.go hands that short result on (see `C18_cex_lz4_length_unchecked`) -/
-example : (lz4Decode lz4Ref [0, 0, 0, 9, 0x10, 0x41]).toOption = some [0x41] := by decide
+/-- the format's decoder may legitimately produce fewer bytes than the destination holds — lz4.go now
+    refuses that short result (`C18_lz4_length_checked`) -/
+example : (lz4BlockDecode [0x10, 0x41] 9).toOption = some [0x41] ∧
+    (lz4Decode lz4Ref [0, 0, 0, 9, 0x10, 0x41]).toOption = none := by decide
 
 /-! ### snappy: the block format as a second concrete codec (Model/CompressSnappy.lean) -/
 
 /-- **The declared length is checked.** Whatever bytes arrive: if the snappy decoder accepts them, the
     body it returns has exactly the length the block's uvarint prefix declares (at most 2³²-1) — a body
     whose prefix over- or under-declares is an error, never a short or padded result. (The lz4 wrapper
-    does NOT have this: `C18_cex_lz4_length_unchecked`.) -/
+    has it since the repair of KF-C18-1: `C18_lz4_length_checked`.) -/
 theorem C18_snappy_length_checked (src b : Bytes) (h : snappyDecode src = .ok b) :
     ∃ rest, uvarint src = some (b.length, rest) ∧ b.length ≤ 0xffffffff := by
   unfold snappyDecode snappyDecodedLen at h
@@ -546,7 +589,7 @@ example : (snappyRef.enc [1, 2, 3]).toOption = some [3, 8, 1, 2, 3] ∧
 theorem C18_snappy_format_delivered (version extra : UInt8) (hx : extra &&& 1 = 0)
     (hv : ValidProto (connFramer (some snappyRef) version extra))
     (r : Req) (s : Int) (body : Bytes)
-    (hsz : 9 + body.length ≤ maxFrameSize) (hz : (snappyLit body).length ≤ maxFrameSize) :
+    (hsz : 9 + body.length ≤ maxFrameSize) (hz : 9 + (snappyLit body).length ≤ maxFrameSize) :
     ∃ wire, (connFramer (some snappyRef) version extra).buildReq r s body = .ok wire ∧
       (connFramer (some snappyRef) version extra).decode wire =
         .ok ((connFramer (some snappyRef) version extra).headOf
@@ -558,14 +601,18 @@ theorem C18_snappy_format_delivered (version extra : UInt8) (hx : extra &&& 1 = 
   cases hb : (connFramer (some snappyRef) version extra).buildReq r s body with
   | error e =>
     exfalso
-    rcases build_err _ _ _ s body e hb with ⟨_, hbig⟩ | ⟨he, _, _⟩ | ⟨_, _, c, u, hcc, hu⟩
-    · have : (connFramer (some snappyRef) version extra).headSize ≤ 9 := by unfold Framer.headSize; split <;> omega
-      omega
+    have hhs9 : (connFramer (some snappyRef) version extra).headSize ≤ 9 := by unfold Framer.headSize; split <;> omega
+    rcases build_err _ _ _ s body e hb with ⟨_, hbig⟩ | ⟨he, _, _⟩ | ⟨_, _, c, u, hcc, hu⟩ | ⟨_, _, c, z, hcc, hez, hbig⟩
+    · omega
     · subst he; exact C18_no_finish_panic (some snappyRef) version extra hx r s body hb
     · have : c = snappyRef := by
         have h' : (connFramer (some snappyRef) version extra).comp = some snappyRef := rfl
         rw [h'] at hcc; injection hcc with hcc; exact hcc.symm
       subst this; rw [hy] at hu; cases hu
+    · have : c = snappyRef := by
+        have h' : (connFramer (some snappyRef) version extra).comp = some snappyRef := rfl
+        rw [h'] at hcc; injection hcc with hcc; exact hcc.symm
+      subst this; rw [hyl] at hez; injection hez with hez; subst hez; omega
   | ok wire =>
     refine ⟨wire, rfl, ?_⟩
     have hb' : (connFramer (some snappyRef) version extra).build
@@ -577,7 +624,7 @@ theorem C18_snappy_format_delivered (version extra : UInt8) (hx : extra &&& 1 = 
     apply C18_transparent_at _ hv _ _ s body wire (fun c z hc hez => by rw [hcs c hc] at hez ⊢; exact hrt z hez) hb'
     rcases Framer.build_ok _ _ _ s body wire hb' with ⟨_, c, z, hcc, henc, hw⟩ | ⟨_, hw⟩
     · subst hw; rw [frame_payload_length]
-      rw [hcs c hcc, hyl] at henc; injection henc with henc; subst henc; exact hz
+      rw [hcs c hcc, hyl] at henc; injection henc with henc; subst henc; omega
     · subst hw; rw [frame_payload_length]; omega
 
 example : ((connFramer (some snappyRef) 4 0).buildReq .query 1 [7, 7, 7]).toOption
@@ -641,14 +688,11 @@ example :
 
 /-! ### frames at the size limit
 
-`finish` compares the UNCOMPRESSED buffer with the 256 MiB limit, then compresses; the compressed
-length is not compared with anything. FULL STATEMENT the property asks for ("every body up to the
-frame size limit is delivered, or the sender gets an error"): NOT true of the code that exists when
-the compressor expands a body that is within the expansion of the limit — `finish` succeeds, the frame
-on the wire declares more than 256 MiB and the reader refuses it (`C18_cex_expanded_over_limit`,
-proposed finding KF-C18-2). `C18_delivered` therefore carries the hypothesis `hz` (the compressed form
-fits), which is exactly the predicate that keeps these bodies out of the spec-backed diff (op `big`
-spec-backed below the limit, op `bigx` model-vs-code above it). -/
+After the repair of KF-C18-2 (props/C18.fix-KF-C18-2.diff) `finish` compares the COMPRESSED frame with
+the 256 MiB limit, too: a body the compressor expands over the limit is refused with ErrFrameTooBig
+instead of being sent in a frame the reader refuses (`C18_expanded_over_limit_refused`; before the
+repair: `C18_cex_expanded_over_limit`). `C18_delivered` is the full statement without the hypothesis
+that the compressed form fits. -/
 
 theorem readHeader_frame_wide (f : Framer) (fl op : UInt8) (s : Int) (payload : Bytes)
     (hv : f.proto = 1 ∨ f.proto = 2 ∨ f.proto = 3 ∨ f.proto = 4 ∨ f.proto = 5)
@@ -667,47 +711,35 @@ theorem readHeader_frame_wide (f : Framer) (fl op : UInt8) (s : Int) (payload : 
   rcases hv with h | h | h | h | h <;> subst h <;>
     simp [Framer.frame, Framer.hdr5, Framer.headOf, readHeader, be32, hr, ht, e1, e2, e3, e4, e5]
 
-/-- **A body the compressor expands over the limit is sent and refused by the reader** (for ALL
-    framers, compressors and bodies in that situation): the uncompressed frame fits, `finish` succeeds,
-    the length field exceeds `maxFrameSize`, and a gocql reader answers ErrFrameTooBig. -/
-theorem C18_cex_expanded_over_limit (f : Framer) (hv : ValidProto f) (fl op : UInt8) (s : Int)
+/-- **A body the compressor expands over the limit is refused at the sender** (for ALL framers,
+    compressors and bodies in that situation): `finish` answers ErrFrameTooBig; no frame is built. -/
+theorem C18_expanded_over_limit_refused (f : Framer) (fl op : UInt8) (s : Int)
     (body z : Bytes) (c : Codec)
     (hfl : fl &&& flagCompress = flagCompress) (hcomp : f.comp = some c) (henc : c.enc body = .ok z)
     (hfit : f.headSize + body.length ≤ maxFrameSize)
-    (hbig : maxFrameSize < z.length) (h31 : z.length < 2147483648) :
-    f.build fl op s body = .ok (f.frame fl op s z) ∧
-    f.decode (f.frame fl op s z) = .error .tooBig := by
-  have hb : f.build fl op s body = .ok (f.frame fl op s z) := by
-    cases hbuild : f.build fl op s body with
-    | error e =>
-      exfalso
-      rcases build_err f fl op s body e hbuild with ⟨_, hb⟩ | ⟨_, _, hn⟩ | ⟨_, _, c', u, hc', hu⟩
-      · omega
-      · rw [hcomp] at hn; cases hn
-      · rw [hcomp] at hc'; injection hc' with hc'; subst hc'; rw [henc] at hu; cases hu
-    | ok wire =>
-      rcases f.build_ok fl op s body wire hbuild with ⟨_, c', z', hc', he', hw⟩ | ⟨hn, _⟩
-      · rw [hcomp] at hc'; injection hc' with hc'; subst hc'
-        rw [henc] at he'; injection he' with he'; subst he'; rw [hw]
-      · exact absurd hfl hn
-  refine ⟨hb, ?_⟩
-  unfold Framer.decode
-  rw [readHeader_frame_wide f fl op s z hv h31]
-  have h1 : ¬ ((z.length : Int) < 0) := by omega
-  have h2 : (z.length : Int) > (maxFrameSize : Int) := by omega
-  simp [Framer.readFrame, Framer.headOf, h1, h2]
+    (hbig : maxFrameSize < f.headSize + z.length) :
+    f.build fl op s body = .error .tooBig := by
+  cases hbuild : f.build fl op s body with
+  | error e =>
+    rcases build_err f fl op s body e hbuild with ⟨he, _⟩ | ⟨_, _, hn⟩ | ⟨_, _, c', u, hc', hu⟩ | ⟨he, _⟩
+    · rw [he]
+    · rw [hcomp] at hn; cases hn
+    · rw [hcomp] at hc'; injection hc' with hc'; subst hc'; rw [henc] at hu; cases hu
+    · rw [he]
+  | ok wire =>
+    have := Framer.build_ok_fits f fl op s body wire c z hbuild hfl hcomp henc
+    omega
 
 /-- the hypotheses are satisfiable: a codec that prepends 16 bytes, any body 9 bytes under the limit -/
 example (body : Bytes) (hb : body.length = maxFrameSize - 9) :
     let c : Codec := { enc := fun x => .ok (List.replicate 16 0 ++ x), dec := fun y => .ok (y.drop 16) }
     (newFramer (some c) 4).headSize + body.length ≤ maxFrameSize ∧
-    (∃ z, c.enc body = .ok z ∧ maxFrameSize < z.length ∧ z.length < 2147483648) := by
+    (∃ z, c.enc body = .ok z ∧ maxFrameSize < (newFramer (some c) 4).headSize + z.length) := by
   intro c
-  refine ⟨?_, List.replicate 16 0 ++ body, rfl, ?_, ?_⟩
-  · have : (newFramer (some c) 4).headSize = 9 := by decide
-    rw [this, hb]; unfold maxFrameSize; omega
-  · simp [hb]; unfold maxFrameSize; omega
-  · simp [hb]; unfold maxFrameSize; omega
+  have h9 : (newFramer (some c) 4).headSize = 9 := by decide
+  refine ⟨?_, List.replicate 16 0 ++ body, rfl, ?_⟩
+  · rw [h9, hb]; unfold maxFrameSize; omega
+  · rw [h9]; simp [hb]; unfold maxFrameSize; omega
 
 /-- **`finish` through lengths only** (what op `big` answers with): whether a frame is built, and how
     long it is, depends on the body and on the compressor's output through their LENGTHS only. -/
@@ -725,7 +757,12 @@ theorem C18_finish_by_length (f : Framer) (fl op : UInt8) (s : Int) (body : Byte
     omega
   cases hb : f.build fl op s body with
   | error e =>
-    rcases build_err f fl op s body e hb with ⟨he, hbig⟩ | ⟨he, hc, hn⟩ | ⟨he, hc, c, u, hcc, hu⟩
+    rcases build_err f fl op s body e hb with ⟨he, hbig⟩ | ⟨he, hc, hn⟩ | ⟨he, hc, c, u, hcc, hu⟩ | ⟨he, hc, c, z, hcc, hez, hbig⟩
+    rotate_left 3
+    · subst he
+      by_cases hgt : f.headSize + body.length > maxFrameSize
+      · simp [finishLen, hgt]
+      · simp [finishLen, hgt, hc, hcc, hez, hbig]
     · subst he; simp [finishLen, hbig]
     · subst he
       have hnb : ¬ (f.headSize + body.length > maxFrameSize) := by
@@ -752,7 +789,9 @@ theorem C18_finish_by_length (f : Framer) (fl op : UInt8) (s : Int) (body : Byte
           have := f.hdr5_length fl op s; have := f.headSize_ge
           simp [Framer.frame, be32_length]; omega
         omega
-      simp [finishLen, hnb, hc, hcc, he, hz]
+      have hfit : ¬ (f.headSize + z.length > maxFrameSize) := by
+        have := Framer.build_ok_fits f fl op s body _ c z hb hc hcc he; omega
+      simp [finishLen, hnb, hc, hcc, he, hz, hfit]
     · subst hw
       have : (fl &&& flagCompress == flagCompress) = false := by simpa using hc
       simp [finishLen, hnb, this, hfl]
@@ -778,10 +817,11 @@ theorem C18_read_by_length (f : Framer) (h : Head) (r : Bytes) :
     simp [Framer.readFrame, readLen, h1, h2, h3, this]; omega
 
 example : finishLen 9 (9 + 100) true (some (.ok 120)) = .ok 129 ∧
+    finishLen 9 (9 + 100) true (some (.ok maxFrameSize)) = .error .tooBig ∧
     readLen 120 120 true (some (.ok 100)) = .ok 100 ∧
     finishLen 9 (maxFrameSize + 1) true (some (.ok 5)) = .error .tooBig ∧
     readLen (maxFrameSize + 1) (maxFrameSize + 1) true (some (.ok 5)) = .error .tooBig :=
-  ⟨by rfl, by rfl, by rfl, by rfl⟩
+  ⟨by rfl, by rfl, by rfl, by rfl, by rfl⟩
 
 /-! ### compressor errors on the send path (Model/CompressSend.lean)
 
@@ -806,16 +846,19 @@ theorem C18_send_error_clean (f : Framer) (st : SendSt) (r : Req) (s : Int) (bod
     · rw [hcomp] at hc'; injection hc' with hc'; subst hc'; rw [henc] at he'; cases he'
     · exact hn ((headerFlags_bit f r).2 ⟨hfl, hr⟩)
   | error e =>
-    rcases build_err f _ _ s body e hb with ⟨_, hbig⟩ | ⟨_, _, hn⟩ | ⟨he, _, _⟩
+    rcases build_err f _ _ s body e hb with ⟨_, hbig⟩ | ⟨_, _, hn⟩ | ⟨he, _, _⟩ | ⟨_, _, c', z, hc', hez, _⟩
     · omega
     · rw [hcomp] at hn; cases hn
     · subst he; rfl
+    · rw [hcomp] at hc'; injection hc' with hc'; subst hc'; rw [henc] at hez; cases hez
 
 /-- **OPTIONS and STARTUP never fail because of the compressor** (they never call it). -/
 theorem C18_send_plain_never_codec (f : Framer) (r : Req) (hr : r = .startup ∨ r = .options)
     (s : Int) (body : Bytes) : f.buildReq r s body ≠ .error .codec := by
   intro h
-  rcases build_err f _ _ s body _ h with ⟨he, _⟩ | ⟨he, _, _⟩ | ⟨_, hbit, _⟩
+  rcases build_err f _ _ s body _ h with ⟨he, _⟩ | ⟨he, _, _⟩ | ⟨_, hbit, _⟩ | ⟨he, _⟩
+  rotate_left 3
+  · cases he
   · cases he
   · cases he
   · have := (headerFlags_bit f r).1 hbit
